@@ -72,6 +72,8 @@ func checkC12(c *Ctx) {
 		})
 	}
 	checkRekeyOrder(c)
+	c.rule("TABLE-orphan-walk", "orphan diff: skip / descend / report decisions on both trees", 4)
+	checkOrphanWalk(c, "TABLE-orphan-walk")
 	checkRebuildDecision(c, "PASS-index-maintenance")
 
 	callTo := func(fs ...*ssa.Function) func(ssa.Instruction) bool {
